@@ -11,6 +11,31 @@ pub use crate::zalsa_local::verif_edges as edges;
 pub enum TraceEvent {
     /// free-form record: (site, a, b, c)
     Raw(&'static str, u64, u64, u64),
+    /// `waiter` registered a wait for `key`, currently computed by thread `owner`
+    /// (`DependencyGraph::block_on`, after the wait-for edge was added).
+    Block { waiter: u64, key: (u32, u64), owner: u64 },
+    /// The wait result of `thread` was stored and its condition variable notified
+    /// (`DependencyGraph::unblock_runtime`). result: 0 completed, 1 panicked, 2 cancelled.
+    Wake { thread: u64, result: u8 },
+    /// `thread` left its wait with `result` (`DependencyGraph::block_on` returned).
+    Resume { thread: u64, result: u8 },
+    /// All threads waiting for `key` are released with `result`
+    /// (`DependencyGraph::unblock_runtimes_blocked_on`).
+    Release { key: (u32, u64), result: u8 },
+    /// The lock of `query` (held by `from_thread`) is handed to `new_owner`, owned by
+    /// `new_owner_thread` (`DependencyGraph::transfer_lock`).
+    Transfer {
+        query: (u32, u64),
+        new_owner: (u32, u64),
+        new_owner_thread: u64,
+        from_thread: u64,
+        thread_changed: bool,
+    },
+    /// The wait-for edge of `waiter` now points at `new_owner_thread`
+    /// (`DependencyGraph::update_transferred_edges`).
+    Retarget { waiter: u64, new_owner_thread: u64 },
+    /// The transfer record of `query` was removed (`undo_transfer_lock` or completion of the owner).
+    TransferEnded { query: (u32, u64) },
     /// A cycle head finished one iteration of its body (`try_complete_cycle_head`).
     CycleHead {
         ingredient: u32,
@@ -42,5 +67,40 @@ pub fn drain() -> Vec<TraceEvent> {
 pub fn trace(ev: TraceEvent) {
     if let Some(v) = SINK.lock().unwrap_or_else(|e| e.into_inner()).as_mut() {
         v.push(ev);
+    }
+}
+
+/// Stable numeric form of a thread id (std or shuttle).
+pub fn thread_u64<T: std::hash::Hash>(t: &T) -> u64 {
+    use std::hash::Hasher;
+    let mut h = std::collections::hash_map::DefaultHasher::new();
+    t.hash(&mut h);
+    h.finish()
+}
+
+/// `thread_u64` of the calling thread, as salsa sees it.
+pub fn current_thread_u64() -> u64 {
+    thread_u64(&crate::sync::thread::current().id())
+}
+
+pub(crate) fn key_pair(k: crate::DatabaseKeyIndex) -> (u32, u64) {
+    (k.ingredient_index().as_u32(), k.key_index().as_bits())
+}
+
+type BlockHook = std::sync::Arc<dyn Fn() + Send + Sync>;
+static BLOCK_HOOK: Mutex<Option<BlockHook>> = Mutex::new(None);
+
+/// Install (or remove) a callback that salsa invokes on a thread immediately before that thread
+/// starts to wait for another thread inside `DependencyGraph::block_on` (every such wait, also
+/// those that emit no `WillBlockOn` event). The callback runs while salsa's dependency-graph
+/// mutex is held: it must not block and must not call into salsa.
+pub fn set_block_hook(hook: Option<BlockHook>) {
+    *BLOCK_HOOK.lock().unwrap_or_else(|e| e.into_inner()) = hook;
+}
+
+pub(crate) fn about_to_block() {
+    let hook = BLOCK_HOOK.lock().unwrap_or_else(|e| e.into_inner()).clone();
+    if let Some(h) = hook {
+        h();
     }
 }
